@@ -364,7 +364,39 @@ func genRedef(w *bufio.Writer, r *rng, id int) {
 		}) {
 			verdict = "panic"
 		}
-		fmt.Fprintf(w, "scn alias %d\nalias %s\nend\n", id, verdict)
+		// a sibling function built on a longer view of the very array that holds the target's default options:
+		// neither Redefine nor Call on the target may write into the spare capacity behind its defaults
+		sibling := "skip"
+		if recovered(func() {
+			common := make([]am.Arg, 0, 8)
+			common = append(common, am.Named("zzcommon", K9{ID: 1}))
+			raw0 := sc.Funcs[0].raw
+			f0, err := am.NewFunc(raw0, common...)
+			if err != nil {
+				return
+			}
+			g, err := am.NewFunc(func(in struct {
+				am.Struct
+				Zzsibling K9
+			}) int {
+				return in.Zzsibling.ID
+			}, append(common, am.Named("zzsibling", K9{ID: 77}))...)
+			if err != nil {
+				return
+			}
+			before := g.Call()
+			f0.Redefine(base...)
+			f0.Call(base...)
+			after := g.Call()
+			if before.Err() == nil && after.Err() == nil && before.Out(0) == after.Out(0) {
+				sibling = "intact"
+			} else {
+				sibling = "disturbed"
+			}
+		}) {
+			sibling = "panic"
+		}
+		fmt.Fprintf(w, "scn alias %d\nalias %s\nsibling %s\nend\n", id, verdict, sibling)
 	}
 }
 
@@ -465,6 +497,17 @@ var cfgOnce = func() genCfg { c := cfgGeneral; c.pOnce = 55; c.pFail = 12; c.pLe
 func genHist(w *bufio.Writer, r *rng, id int) {
 	sc := genScenario(r, cfgOnce)
 	sc.Funcs[0].Once = r.chance(1, 4)
+	sc.multiTyped(r)
+	// a function assembled with BuildFunc that fails the first time it runs and works afterwards
+	for _, f := range sc.Funcs[1:] {
+		if f.Form == "built" && !f.Once && r.chance(1, 2) {
+			f.Script = "fail@0"
+			break
+		}
+	}
+	if r.chance(1, 4) && sc.buildAll() == nil {
+		sc.gensify(r) // some converters come from converter generators
+	}
 	if err := sc.buildAll(); err != nil {
 		fmt.Fprintf(w, "scn hist %d builderr\nbuilderr %s\nend\n", id, strings.ReplaceAll(err.Error(), "\n", " "))
 		return
